@@ -120,11 +120,81 @@ def dump_fw(run):
            os.path.join(vf.ROOT, "harness/c/c11_fw_dump.c"), "-o", exe]
     rc, out = vf.sh(cmd, timeout=600)
     if rc != 0:
-        raise vf.HarnessError("firmware table dumper does not compile: %s" % out[-2500:])
+        # the tables cannot be read by name in this tree (members / layout of the private struct changed): reconstruct them
+        # from the calls the code makes
+        try:
+            return dump_fw_behavioural(run)
+        except vf.HarnessError as e2:
+            raise vf.HarnessError("firmware table dumper does not compile: %s\n(behavioural reconstruction: %s)" % (out[-2000:], str(e2)[-800:]))
     rc, out = vf.sh([exe], timeout=60)
     if rc != 0:
         raise vf.HarnessError("firmware table dumper failed: %s" % out[-500:])
     return json.loads(out)
+
+
+def dump_fw_behavioural(run):
+    """the same JSON as c11_fw_dump.c prints, with canonical rows reconstructed from the recorded tdma_schedule_set() calls of
+    every task over a full 51x26x8 cycle: per (sched set, flags) the smallest period the firing pattern has, one row per residue"""
+    exe = os.path.join(run.scratch, "c11_fw_rtdump")
+    cmd = ["gcc", "-O0", "-w", "-DHOST_BUILD", '-DC11_MFRAME_C="%s"' % os.path.join(vf.REPO, FW_C),
+           "-I", run.scratch, "-I", cbuild.SHIM, "-I", os.path.join(cbuild.SHIM, "cfg/a/b"), "-I", cbuild.LIBOSMO_INC, "-I", cbuild.TOP_INC,
+           "-idirafter", cbuild.FW_INC,
+           os.path.join(vf.ROOT, "harness/c/c11_fw_rtdump.c"),
+           os.path.join(vf.REPO, "src/shared/libosmocore/src/gsm/gsm_utils.c"), "-o", exe]
+    rc, out = vf.sh(cmd, timeout=600)
+    if rc != 0:
+        raise vf.HarnessError("behavioural firmware dumper does not compile: %s" % out[-1500:])
+    rc, out = vf.sh([exe], timeout=300)
+    if rc != 0:
+        raise vf.HarnessError("behavioural firmware dumper failed: %s" % out[-500:])
+    consts, sets, tasks, ev, dead = {}, [], [], {}, set()
+    for ln in out.split("\n"):
+        t = ln.split()
+        if not t:
+            continue
+        if t[0] == "C":
+            consts[t[1]] = int(t[2])
+        elif t[0] == "S":
+            sets.append(t[1])
+        elif t[0] == "T":
+            tasks.append([t[1], int(t[2])])
+        elif t[0] == "E":
+            ev.setdefault(int(t[1]), []).append((int(t[2]), t[3], int(t[4]), int(t[5])))
+        elif t[0] == "X":
+            dead.add(int(t[1]))
+        elif t[0] == "D":
+            ev.setdefault(int(t[1]), [])         # ran to the end: a table exists, possibly without rows
+    cycle = consts.pop("CYCLE")
+    ahead = consts["SCHEDULE_AHEAD"]
+    divisors = [d for d in range(1, cycle + 1) if cycle % d == 0]
+    tables, for_task = {}, []
+    ids = {v: n for n, v in tasks}
+    for tid in range(0, 32):
+        if tid not in ids or tid in dead or tid not in ev:
+            for_task.append(None)
+            continue
+        groups, order = {}, []
+        for fn, st, p3, off in ev[tid]:
+            if st == "?" or p3 % 256 != tid or off != ahead - consts["SCHEDULE_LATENCY"]:
+                raise vf.HarnessError("task %d: unexpected tdma_schedule_set(%d, %s, %d)" % (tid, off, st, p3))
+            key = (st, p3 >> 8)
+            if key not in groups:
+                groups[key] = set()
+                order.append(key)
+            groups[key].add((fn + ahead) % cycle)
+        rows = []
+        for key in order:
+            res = groups[key]
+            per = next(d for d in divisors if {(r + d) % cycle for r in res} == res)
+            rows += [[key[0], per, r, key[1]] for r in sorted({r % per for r in res})]
+        name = "rt_" + ids[tid].lower()
+        tables[name] = rows
+        for_task.append(name)
+    while for_task and for_task[-1] is None:
+        for_task.pop()
+    for_task += [None] * (32 - len(for_task))
+    run.c11_fw_behavioural = True
+    return {"consts": consts, "sets": sets, "tasks": tasks, "tables": tables, "sched_set_for_task": for_task}
 
 
 def dump_trxcon(run):
